@@ -411,6 +411,36 @@ impl Val {
     }
 }
 
+impl Val {
+    /// like canon, but booleans are kept apart from numbers
+    pub fn canon_boolsep(&self) -> String {
+        match self {
+            Val::Bool(b) => format!("B{b}"),
+            Val::List(x) | Val::SizedIter(x) | Val::UnsizedIter(x) => {
+                format!("[{}]", x.iter().map(|v| v.canon_boolsep()).collect::<Vec<_>>().join(","))
+            }
+            Val::Tuple(x) => {
+                format!("({})", x.iter().map(|v| v.canon_boolsep()).collect::<Vec<_>>().join(","))
+            }
+            Val::Map(e) => {
+                let mut entries: Vec<String> = e
+                    .iter()
+                    .map(|(k, v)| format!("{}:{}", k.canon_boolsep(), v.canon_boolsep()))
+                    .collect();
+                entries.sort();
+                format!("{{{}}}", entries.join(","))
+            }
+            other => other.canon(),
+        }
+    }
+}
+
+/// true when the two values are the same mathematical value but one has a boolean where
+/// the other has the number 0/1
+pub fn differ_in_bool_vs_number(a: &Val, b: &Val) -> bool {
+    a.canon() == b.canon() && a.canon_boolsep() != b.canon_boolsep()
+}
+
 /// true when the two values are the same mathematical value and differ (only) in the
 /// insertion order of some map
 pub fn differ_in_map_order(a: &Val, b: &Val) -> bool {
